@@ -38,6 +38,11 @@ type Entry struct {
 	Membership bool // accepted => Member
 	// format-aware faults (C09/C10): each returns a corrupted variant of v
 	Aware []func(v []byte, a int) []byte
+	// AwareN: how many values of a the directed plans enumerate per aware fault (default 32)
+	AwareN int
+	// Text: the input is text, not a binary format with length fields (no wrap16 faults:
+	// they only make the input 64 KiB long)
+	Text bool
 	// FixedLen > 0: the API takes a fixed-size array, length faults cannot be expressed
 	FixedLen int
 	Cost     int // relative cost of one call (1 = microseconds, 10 = ~1 ms, 100 = ~10 ms)
@@ -89,7 +94,7 @@ type Plan struct {
 	Entry string `json:"entry"`
 	Seed  uint64 `json:"seed"`
 	Muts  []Mut  `json:"muts,omitempty"`
-	Enum  string `json:"enum,omitempty"` // flips | truncs | lenfields | sizes | aware
+	Enum  string `json:"enum,omitempty"` // flips | truncs | lenfields | wraps | sizes | aware
 	From  int    `json:"from,omitempty"`
 	To    int    `json:"to,omitempty"` // exclusive; 0 = to the end
 }
@@ -194,6 +199,37 @@ func Apply(e *Entry, v []byte, m Mut) ([]byte, bool) {
 			return nil, false
 		}
 		binary.LittleEndian.PutUint16(out[m.A%(n-1):], uint16(m.B))
+	case "wrap16":
+		// a 16-bit length field near its maximum, in an input that really is that long: sums
+		// such as header+length computed in 16 bits wrap around. The field at offset A gets
+		// 0xfff8+(B&7) (big endian, little endian with B&8) and the input is resized so that
+		// the bytes after the field number exactly the field (B&48 = 0), 0xffff (16) or
+		// 0x10000 + the field's low 3 bits (32).
+		if e.FixedLen > 0 || e.Text || n < 2 || m.A < 0 {
+			return nil, false
+		}
+		off := m.A % (n - 1)
+		val := 0xfff8 + m.B&7
+		after := val
+		switch m.B & 48 {
+		case 16:
+			after = 0xffff
+		case 32:
+			after = 0x10000 + val&7
+		case 48:
+			return nil, false
+		}
+		grown := make([]byte, off+2+after)
+		copy(grown, out)
+		for i := n; i < len(grown); i++ {
+			grown[i] = byte(i * 7)
+		}
+		out = grown
+		if m.B&8 != 0 {
+			binary.LittleEndian.PutUint16(out[off:], uint16(val))
+		} else {
+			binary.BigEndian.PutUint16(out[off:], uint16(val))
+		}
 	case "ramp":
 		// the last A bytes (or the first, B&2) become a strictly increasing run ending at 0xff
 		// (or starting at 0, B&1): sorted index lists, counters and hint tables read such runs
@@ -279,6 +315,15 @@ func enumerate(e *Entry, v []byte, p *Plan) []Mut {
 			}
 			all = append(all, Mut{K: "set16", A: i, B: n - i}, Mut{K: "set16", A: i, B: n - i - 1}, Mut{K: "set16", A: i, B: n - i - 3})
 		}
+	case "wraps":
+		// a family of its own: the length-field family is sampled when it exceeds the budget
+		if e.FixedLen == 0 && !e.Text {
+			for i := 0; i+1 < n && i < 24; i++ {
+				for _, b := range []int{0, 7, 16, 16 + 7, 32, 32 + 7, 8, 8 + 7, 8 + 16, 8 + 16 + 7} {
+					all = append(all, Mut{K: "wrap16", A: i, B: b})
+				}
+			}
+		}
 	case "sizes":
 		if e.FixedLen == 0 {
 			for _, d := range []int{-17, -16, -15, -2, -1, 1, 2, 15, 16, 17} {
@@ -301,8 +346,12 @@ func enumerate(e *Entry, v []byte, p *Plan) []Mut {
 			}
 		}
 	case "aware":
+		awareN := e.AwareN
+		if awareN == 0 {
+			awareN = 32
+		}
 		for i := range e.Aware {
-			for b := 0; b < 32; b++ {
+			for b := 0; b < awareN; b++ {
 				all = append(all, Mut{K: "aware", A: i, B: b})
 			}
 		}
@@ -512,8 +561,8 @@ func Gen(r *core.PRNG, tier string, filter func(*Entry) bool) *Plan {
 	if e.Cost >= 50 {
 		n = r.Range(3, 10)
 	}
-	kinds := []string{"flip", "trunc", "extend", "setbyte", "zeros", "ones", "empty", "nil", "onebyte", "rand", "set16", "set32", "set16le", "splice", "aware", "ramp"}
-	wts := []int{30, 14, 6, 8, 1, 1, 1, 1, 2, 6, 10, 6, 3, 5, 12, 3}
+	kinds := []string{"flip", "trunc", "extend", "setbyte", "zeros", "ones", "empty", "nil", "onebyte", "rand", "set16", "set32", "set16le", "splice", "aware", "ramp", "wrap16"}
+	wts := []int{30, 14, 6, 8, 1, 1, 1, 1, 2, 6, 10, 6, 3, 5, 12, 3, 1}
 	for i := 0; i < n; i++ {
 		k := kinds[r.Pick(wts...)]
 		m := Mut{K: k, A: r.Intn(1 << 20), B: r.Intn(1 << 16)}
@@ -531,6 +580,8 @@ func Gen(r *core.PRNG, tier string, filter func(*Entry) bool) *Plan {
 			m.A = r.EdgeLen(300, 0, 1, 16, 32, 48, 96)
 		case "ramp":
 			m.A, m.B = 1+r.Intn(256), r.Intn(4)
+		case "wrap16":
+			m.A, m.B = r.Intn(32), r.Intn(48)
 		}
 		p.Muts = append(p.Muts, m)
 	}
@@ -574,7 +625,7 @@ func directed(tier string, filter func(*Entry) bool, flipsOnly bool) []any {
 		}
 		for s := 0; s < seeds; s++ {
 			v := valid(e, uint64(s))
-			fam := []string{"truncs", "sizes", "lenfields", "aware", "flips"}
+			fam := []string{"truncs", "sizes", "lenfields", "wraps", "aware", "flips"}
 			if flipsOnly {
 				fam = []string{"flips", "aware"}
 			}
